@@ -1050,6 +1050,12 @@ class Exec(Interp):
         if c.get('def') is None and c.get('fn_op') is not None:
             # call through a function pointer: the callee is whatever function values reach the operand
             fnv = self.operand(st, fr, c['fn_op'])
+            if fnv[0] not in ('fn', 'fnset', 'closure') and c.get('indirect'):
+                # the pointer's value is not tracked (loaded from a table, ...): every crate function and variant constructor of that
+                # exact type may be the callee (type-based resolution of the indirect call)
+                cands = self.fn_candidates(c['indirect'])
+                if cands:
+                    fnv = ('fnset', frozenset(cands)) if len(cands) > 1 else ('fn', cands[0])
             if fnv[0] in ('fn', 'fnset', 'closure'):
                 res_ = self.call_value(st, fnv, args, chain, depth)
                 if res_ is not None:
@@ -1101,6 +1107,28 @@ class Exec(Interp):
                     break
             cache[key] = found
         return self.body(cache[key]) if cache[key] else None
+
+    def fn_candidates(self, fty):
+        """crate functions / tuple-variant constructors whose type is exactly the function pointer type `fty` ("fn(A, B) -> R")"""
+        cache = self.__dict__.setdefault('_fn_cands', {})
+        if fty in cache:
+            return cache[fty]
+        want = fty.replace(' ', '')
+        out = []
+        for d_, fn in self.f.fns.items():
+            sig = (fn.get('sig') or '').replace(' ', '')
+            if sig == want and (self.body(d_) is not None or self.body('G:' + d_) is not None):
+                out.append(d_)
+        if '->' in want:
+            argstr, ret = want[3:].rsplit(')->', 1)
+            adt = self.f.adts.get(ret)
+            if adt is not None:
+                argl = [a for a in argstr.split(',') if a]
+                for v_ in adt['variants']:
+                    if len(v_['fields']) == len(argl) and all((fd['tyj'].get('n') or fd['tyj'].get('def') or fd['tyj'].get('s')) == a for fd, a in zip(v_['fields'], argl)):
+                        out.append('%s::%s' % (ret, v_['name']))
+        cache[fty] = sorted(out)[:64]
+        return cache[fty]
 
     def call_value(self, st, fnv, args, chain, depth):
         """Call a function item or closure value with already evaluated arguments; None if its body is not available."""
